@@ -194,7 +194,8 @@ fn violation_json(prop: &Property, v: &Variant, tier: &str, seed: u64, index: u6
         "violation": {
             "kind": viol.kind, "sig": viol.sig, "step": viol.step, "virtual_ms": viol.vms, "message": viol.msg, "harness": viol.harness
         },
-        "event_log_hash": format!("{:016x}", r.ev_hash),
+        // (where the wall-clock budget runs out is not a function of the seed: the class is compared on replay, not the log)
+        "event_log_hash": if viol.kind == "work-out-of-proportion" { String::new() } else { format!("{:016x}", r.ev_hash) },
         "event_log_tail": r.tail,
         "minimised_from": minimised_from,
     })
@@ -294,7 +295,9 @@ pub fn worker_main(prop: &Property, tier: &str, base_seed: u64, start: u64, stri
             if *n == 1 {
                 // minimise, then re-run with tracing to capture the tail
                 let from = r.choices.len();
-                let (min, _execs) = minimise(v, seed, case, r.choices.clone(), &class, 300);
+                // (a run that burns its wall-clock budget is not minimised: every attempt would burn it again)
+                let budget = if class.0 == "work-out-of-proportion" { 0 } else { 300 };
+                let (min, _execs) = minimise(v, seed, case, r.choices.clone(), &class, budget);
                 let traced = run_once(v, seed, Source::Replay(min.clone()), true, case);
                 let rec = if class_of(&traced).as_ref() == Some(&class) {
                     violation_json(prop, v, tier, seed, idx, case, &traced, from)
@@ -312,6 +315,11 @@ pub fn worker_main(prop: &Property, tier: &str, base_seed: u64, start: u64, stri
                 let mut o = out.lock();
                 let _ = writeln!(o, "V {}", rec);
                 let _ = o.flush();
+            }
+            if class.0 == "work-out-of-proportion" {
+                // every further run of that kind would burn the budget again: this worker's share of
+                // the batch ends here (the batch has failed already)
+                break;
             }
         }
         idx += stride;
